@@ -262,7 +262,7 @@ def impl_serialize(fn, defs, container):
     return canon_container(out)
 
 
-def corr_serialize3(chk, n, vt, vs):
+def corr_serialize3(chk, n, vt, vm, vs):
     rng, drv = chk.rng, chk.driver()
     cases = []
     # exhaustive: every cell of the table x a value of each shape
@@ -287,7 +287,7 @@ def corr_serialize3(chk, n, vt, vs):
         if rng.random() < 0.2:
             container[rng.choice(NAMES)] = gen_prim(rng)
         cases.append((defs, container, "random"))
-    reqs = [("serialize3", {"vt": vt, "vs": vs, "defs": [wire_def(d) for d in defs], "container": enc_container(c)})
+    reqs = [("serialize3", {"vt": vt, "vm": vm, "vs": vs, "defs": [wire_def(d) for d in defs], "container": enc_container(c)})
             for defs, c, _ in cases]
     outs = drv.batch(reqs)
     for (defs, c, kind), m in zip(cases, outs):
@@ -303,7 +303,7 @@ def corr_serialize3(chk, n, vt, vs):
             chk.feature("serialize3:outside-model(repr/json)")
             continue
         if typed(impl) != typed(m):
-            chk.disagreement("serialize_openapi3_parameters", {"defs": defs, "container": c, "vt": vt, "vs": vs}, m, impl)
+            chk.disagreement("serialize_openapi3_parameters", {"defs": defs, "container": c, "vt": vt, "vm": vm, "vs": vs}, m, impl)
 
 
 def corr_serialize2(chk, n, vs):
@@ -376,13 +376,19 @@ def corr_jsonify_stringify(chk, n, vj):
             chk.disagreement("_stringify_value", {"container": c, "isQuery": a["isQuery"]}, m, impl)
 
 
-def detect_variant_table() -> str:
-    """matrix, explode=false must carry `name=`; path arrays need a serializer under the default style"""
-    f = ser.serialize_openapi3_parameters([raw_def("p", "path", "array", "matrix", False)])
-    a = f({"p": ["x", "y"]})["p"]
+def detect_variant_defaults() -> str:
+    """absent style / explode must be read as their OpenAPI defaults (witnesses: path array, header object)"""
     g = ser.serialize_openapi3_parameters([raw_def("p", "path", "array", None, None)])
     b = g({"p": ["x", "y"]})["p"] if g is not None else ["x", "y"]
-    return "repaired" if (a == ";p=x,y" and b == "x,y") else "asFound"
+    h = ser.serialize_openapi3_parameters([raw_def("p", "header", "object", None, None)])
+    c = h({"p": {"r": "1"}})["p"] if h is not None else None
+    return "repaired" if (b == "x,y" and c == "r,1") else "asFound"
+
+
+def detect_variant_matrix() -> str:
+    """matrix, explode=false must carry `name=`"""
+    f = ser.serialize_openapi3_parameters([raw_def("p", "path", "array", "matrix", False)])
+    return "repaired" if f({"p": ["x", "y"]})["p"] == ";p=x,y" else "asFound"
 
 
 def detect_variant_itemstr() -> str:
@@ -470,9 +476,9 @@ def dval_of_py(v):
     return spell_py(v)
 
 
-def e2e_styles(chk, variants, n_random):
+def e2e_styles(chk, variants, n_random, front="strategy"):
     rng = chk.rng
-    vq, vt, vs, vj = variants
+    vq, vt, vm, vs, vj = variants
     drv = chk.driver()
     base = "http://127.0.0.1:8080/api"
     cases = []  # (cell, name, value, template, pipeline)
@@ -504,7 +510,16 @@ def e2e_styles(chk, variants, n_random):
     for cell, name, v in cases:
         pl = pipe_for(cell["loc"], cell["style"], cell["explode"], cell["ty"], name)
         try:
-            case = pl.case({cell["loc"]: {name: copy.deepcopy(v)}})
+            if front == "strategy":
+                case = pl.case({cell["loc"]: {name: copy.deepcopy(v)}})
+            else:   # coverage phase: Template._serialize builds the Case arguments
+                cname = {"path": "path_parameters", "query": "query", "header": "headers", "cookie": "cookies"}[cell["loc"]]
+                if not hasattr(pl, "serializers"):
+                    pl.serializers = get_serializers_for_operation(pl.operation)
+                kwargs = Template(pl.serializers)._serialize({cname: {name: copy.deepcopy(v)}})
+                if cell["loc"] == "path" and kwargs[cname].get(name) in ("", None):
+                    raise Rejected("empty path value")   # the generators of the coverage phase never emit it
+                case = pl.operation.Case(**kwargs)
             prep = pl.prepared(case)
             observed.append(observed_from_prepared(prep, base, pl.template))
         except Rejected:
@@ -537,7 +552,7 @@ def e2e_styles(chk, variants, n_random):
                 t = [val for k, val in obs["cookies"] if k == name]
         texts.append(t)
     # phase C: model + specification
-    reqs = [("cell", {"vt": vt, "vs": vs, "cell": cell, "name": name, "val": enc_val(v)}) for cell, name, v in cases]
+    reqs = [("cell", {"vt": vt, "vm": vm, "vs": vs, "cell": cell, "name": name, "val": enc_val(v)}) for cell, name, v in cases]
     models = drv.batch(reqs)
     dec_reqs, dec_idx = [], []
     for i, ((cell, name, v), t) in enumerate(zip(cases, texts)):
@@ -550,7 +565,7 @@ def e2e_styles(chk, variants, n_random):
         model_err(m, (cell, name, v))
         loc = cell["loc"]
         tag = f"{loc}/{cell['style']}/{cell['explode']}/{cell['ty']}"
-        mech = "pipeline:requests"
+        mech = "pipeline:requests" if front == "strategy" else "pipeline:coverage-template"
         if obs == "REJECTED":
             chk.case(mech, key=[cell, name, enc_val(v)], nontrivial=False)
             chk.feature("e2e:rejected-by-is_valid-filter")
@@ -560,6 +575,9 @@ def e2e_styles(chk, variants, n_random):
         chk.feature(f"e2e:loc={loc}")
         chk.feature(f"e2e:style={cell['style']}")
         chk.feature(f"e2e:type={cell['ty']}")
+        if isinstance(obs, str) and front != "strategy" and obs in ("EXC:InvalidHeader", "EXC:UnicodeEncodeError"):
+            chk.feature(f"e2e:template:{obs}(no is_valid filter in this phase; not judged)")
+            continue
         if isinstance(obs, str):
             chk.feature(f"e2e:{obs}")
             chk.violation(f"C06:pipeline:{tag}:{obs}", f"the real pipeline raised {obs} for a generated value",
@@ -572,7 +590,8 @@ def e2e_styles(chk, variants, n_random):
                   "url": obs["raw_path"] + ("?" + obs["raw_query"] if obs["raw_query"] else "")}
         expected = m["coerce"]
         # -- correspondence: the model's text is what the wire carries (after percent-decoding)
-        if m["wire"] is not None:
+        if m["wire"] is not None and front == "strategy":
+            chk.case("pipeline:cellWire", key=[cell, name, enc_val(v)], nontrivial=True)
             mw = m["wire"]
             if loc == "path" and vq == "asFound":
                 mw = mw.replace(" ", "+")
@@ -588,7 +607,8 @@ def e2e_styles(chk, variants, n_random):
             if loc == "path" and vq == "asFound" and isinstance(t, list) and len(t) == 1 and " " in (m["wire"] or ""):
                 sig, why = KF_PLUS, "space sent as '+' in the path"
             elif m["known_bad"]:
-                r = known_bad_reason(cell)
+                r = "matrix-name" if (m["bad_matrix"] and vm == "asFound" and not (m["bad_defaults"] and vt == "asFound")) \
+                    else known_bad_reason(cell)
                 sig, why = KF[r], r
             elif has_bool_or_null(v) and vs == "asFound":
                 sig, why = KF["python-repr"], "python repr of a boolean / null"
@@ -597,16 +617,100 @@ def e2e_styles(chk, variants, n_random):
                 if r is not None:
                     sig, why = KF[r], r
                 else:
-                    sig, why = f"C06:e2e:{tag}:value-not-recovered", "unexplained"
+                    sig, why = f"C06:e2e:{loc}/{m['eff_style'].rsplit('.', 1)[-1]}/{cell['ty']}:value-not-recovered", "unexplained"
             # a known finding must also be *explained by the model*: the model predicts exactly the observed text
-            explained = m["wire"] is not None and (t == [m["wire"]] or (loc == "path" and t == [m["wire"].replace(" ", "+")]))
+            explained = front != "strategy" or (
+                m["wire"] is not None and (t == [m["wire"]] or (loc == "path" and t == [m["wire"].replace(" ", "+")])))
             if sig in KF.values() and m["wire"] is not None and not explained:
-                sig = f"C06:e2e:{tag}:value-not-recovered"
+                sig = f"C06:e2e:{loc}/{m['eff_style'].rsplit('.', 1)[-1]}/{cell['ty']}:value-not-recovered"
             chk.feature(f"e2e:lost:{why}")
             chk.violation(sig, f"{tag}: parameter {name}={v!r} is sent as {t!r}; the {cell['style'] or 'default'} decoder reads "
                           f"{got!r}, expected {expected!r}", replay)
         else:
             judge_spread(chk, cell, name, v, obs, t, m, vj, vs, tag, replay)
+
+
+def e2e_swagger2(chk, variants, n_random):
+    """Swagger 2.0 `collectionFormat`: csv / ssv / tsv / pipes are one string split on the delimiter, multi is repeated"""
+    rng, drv = chk.rng, chk.driver()
+    vq, vt, vm, vs, vj = variants
+    base = "http://127.0.0.1:8080/api"
+    delim = {"csv": ",", "ssv": " ", "tsv": "\t", "pipes": "|", None: ","}
+    cases, pipes = [], {}
+    arrays = [["x", "y"], ["a b", "c"], [1, 2], [True, None], [], [""], ["a,b", "c"], ["a|b"], ["t\tu"], ["é"]]
+    for loc, fmt in itertools.product(["query", "header", "path"], [None, "csv", "ssv", "tsv", "pipes", "multi"]):
+        if fmt == "multi" and loc != "query":
+            continue
+        for v in arrays:
+            cases.append((loc, fmt, v))
+    for _ in range(n_random):
+        loc = rng.choice(["query", "header", "path"])
+        cases.append((loc, rng.choice([None, "csv", "ssv", "tsv", "pipes"] + (["multi"] if loc == "query" else [])), gen_val(rng, "array")))
+    observed = []
+    for loc, fmt, v in cases:
+        if (loc, fmt) not in pipes:
+            d = {"name": "p", "in": loc, "type": "array", "items": {"type": "string"}}
+            if fmt:
+                d["collectionFormat"] = fmt
+            if loc == "path":
+                d["required"] = True
+            pipes[(loc, fmt)] = Pipeline([d], "/u/{p}/x" if loc == "path" else "/u", base, swagger2=True)
+        pl = pipes[(loc, fmt)]
+        try:
+            case = pl.case({loc: {"p": copy.deepcopy(v)}})
+            observed.append(observed_from_prepared(pl.prepared(case), base, pl.template))
+        except Rejected:
+            observed.append("REJECTED")
+        except Exception as e:  # noqa: BLE001
+            observed.append(f"EXC:{type(e).__name__}")
+    texts = []
+    for (loc, fmt, v), obs in zip(cases, observed):
+        t = None
+        if isinstance(obs, dict):
+            if loc == "path" and obs["segments"] is not None:
+                t = [unquote_to_bytes(obs["segments"]["p"]).decode("utf-8", "replace")]
+            elif loc == "query":
+                t = [val for k, val in obs["query"] if k == "p"]
+            elif loc == "header":
+                t = [obs["headers"]["p"]] if "p" in obs["headers"] else []
+        texts.append(t)
+    reqs, idx = [], []
+    for i, ((loc, fmt, v), t) in enumerate(zip(cases, texts)):
+        if fmt != "multi" and t is not None and len(t) == 1:
+            reqs.append(("decode_list", {"d": ord(delim[fmt]), "w": t[0]}))
+            idx.append(i)
+    decs = dict(zip(idx, drv.batch(reqs)))
+    for i, ((loc, fmt, v), obs, t) in enumerate(zip(cases, observed, texts)):
+        tag = f"swagger2/{loc}/{fmt}"
+        if obs == "REJECTED":
+            chk.case("pipeline:swagger2", key=[loc, fmt, v], nontrivial=False)
+            continue
+        chk.case("pipeline:swagger2", key=[loc, fmt, v], nontrivial=True, sample={"in": loc, "collectionFormat": fmt, "value": v, "observed": t})
+        chk.feature(f"swagger2:fmt={fmt}")
+        replay = {"mechanism": "swagger2", "loc": loc, "fmt": fmt, "value": v, "observed": t}
+        if isinstance(obs, str):
+            chk.violation(f"C06:pipeline:{tag}:{obs}", f"the real pipeline raised {obs}", replay)
+            continue
+        want = [spell_py(x) for x in v]
+        got = t if fmt == "multi" else (decs[i]["arr"] if i in decs else None)
+        if got == want:
+            chk.feature("swagger2:recovered")
+            continue
+        if loc == "path" and vq == "asFound" and any(" " in spell_py(x) for x in v) and got == [w.replace(" ", "+") for w in want]:
+            sig = KF_PLUS
+        elif fmt == "ssv" and loc == "path" and vq == "asFound" and got is not None and "+".join(want) == "".join(t or []):
+            sig = KF_PLUS
+        elif has_bool_or_null(v) and (vs == "asFound" if fmt != "multi" else vj == "asFound"):
+            sig = KF["python-repr"] if fmt != "multi" else KF["jsonify-list"]
+        elif not v or want == [""]:
+            sig = KF["empty"] if fmt != "multi" or want == [""] else f"C06:e2e:{tag}:value-not-recovered"
+            if fmt == "multi" and not v:
+                continue   # no entry at all = empty list
+        elif any(delim.get(fmt, ",") in w for w in want) and fmt != "multi":
+            sig = KF["delimiter"]
+        else:
+            sig = f"C06:e2e:{tag}:value-not-recovered"
+        chk.violation(sig, f"{tag}: p={v!r} is sent as {t!r}, decoded {got!r}, expected {want!r}", replay)
 
 
 def judge_spread(chk, cell, name, v, obs, t, m, vj, vs, tag, replay):
@@ -885,7 +989,7 @@ def replay_bodies(chk, n):
 
 def corr_template(chk, n, variants):
     rng, drv = chk.rng, chk.driver()
-    vq, vt, vs, _ = variants
+    vq, vt, vm, vs, _ = variants
     cases = []
     for _ in range(n):
         loc = rng.choice(LOCS)
@@ -898,7 +1002,7 @@ def corr_template(chk, n, variants):
             defs.append(d)
         container = {d["name"]: gen_val(rng, d["schema"]["type"]) for d in defs}
         cases.append((loc, defs, container))
-    reqs = [("template", {"vq": vq, "vt": vt, "vs": vs, "loc": loc, "defs": [wire_def(d) for d in defs],
+    reqs = [("template", {"vq": vq, "vt": vt, "vm": vm, "vs": vs, "loc": loc, "defs": [wire_def(d) for d in defs],
                           "container": enc_container(c)}) for loc, defs, c in cases]
     outs = drv.batch(reqs)
     pipes = {}
@@ -1025,16 +1129,18 @@ def run(chk):
     chk.proved += ["pct_roundtrip"]
     corr_quote(chk, chk.budget(400, 4000))
     corr_quote_all(chk, chk.budget(600, 6000), v_quote)
-    vt, vs, vj = detect_variant_table(), detect_variant_itemstr(), detect_variant_jsonify()
-    chk.variants.update({"style_table": vt, "str(item)": vs, "jsonify": vj})
-    corr_serialize3(chk, chk.budget(2500, 30000), vt, vs)
+    vt, vm, vs, vj = detect_variant_defaults(), detect_variant_matrix(), detect_variant_itemstr(), detect_variant_jsonify()
+    chk.variants.update({"style_defaults": vt, "matrix_name": vm, "str(item)": vs, "jsonify": vj})
+    corr_serialize3(chk, chk.budget(2500, 30000), vt, vm, vs)
     corr_serialize2(chk, chk.budget(600, 6000), vs)
     corr_jsonify_stringify(chk, chk.budget(600, 6000), vj)
-    e2e_styles(chk, (v_quote, vt, vs, vj), chk.budget(1500, 20000))
+    e2e_styles(chk, (v_quote, vt, vm, vs, vj), chk.budget(1500, 20000))
+    e2e_styles(chk, (v_quote, vt, vm, vs, vj), chk.budget(300, 5000), front="template")
+    e2e_swagger2(chk, (v_quote, vt, vm, vs, vj), chk.budget(300, 4000))
     corr_url(chk, chk.budget(1200, 15000), v_quote)
     corr_headers(chk, chk.budget(500, 5000))
     replay_bodies(chk, chk.budget(300, 3000))
-    corr_template(chk, chk.budget(1500, 15000), (v_quote, vt, vs, vj))
+    corr_template(chk, chk.budget(1500, 15000), (v_quote, vt, vm, vs, vj))
     corr_empty_dicts(chk, chk.budget(200, 2000))
     replay_transports(chk, chk.budget(150, 2000), loopback=chk.thorough)
     chk.exhaustive = False
